@@ -349,10 +349,20 @@ class Run:
         self.ref = {}
         self.in_links = collections.defaultdict(list)
         self.adapters = []
+        trunk_end = {}
         for li in cfg.get("link_order") or range(len(self.links)):
             l = self.links[li]
             src, dst = self.comps[l["src"]], self.comps[l["dst"]]
             ch = src.outputs[l["so"]]
+            if l.get("trunk"):
+                # stateless pass-through adapters shared by several links (fan-out behind them); built with the first link that uses them
+                if l["trunk"] not in trunk_end:
+                    for tok in cfg["trunks"][l["trunk"]]:
+                        a = mk_adapter(tok)
+                        self.adapters.append(a)
+                        ch = ch >> a
+                    trunk_end[l["trunk"]] = ch
+                ch = trunk_end[l["trunk"]]
             for tok in l["chain"]:
                 a = mk_adapter(tok)
                 a.v_link = li
@@ -370,7 +380,8 @@ class Run:
                 else:
                     self.sources[key] = RefP(self, l["src"], l["so"])
             init = Fr(src.start) if isinstance(src, VComp) else Fr(self.t_start)
-            self.ref[li] = R.RefLink(self.sources[key], [tuple(t) for t in l["chain"]], init)
+            full = [tuple(t) for t in (cfg["trunks"][l["trunk"]] if l.get("trunk") else [])] + [tuple(t) for t in l["chain"]]
+            self.ref[li] = R.RefLink(self.sources[key], full, init)
             self.in_links[l["dst"]].append(li)
         self.last_pull = {}  # link -> last pull time of its consumer
         self.out_links = collections.defaultdict(list)
